@@ -430,6 +430,13 @@ var strPieces = []string{"a", "b", "z", "A", "0", " ", "_", "-", ".", "/", "'", 
 	"\u00e9", "\u00df", "\u20ac", "\u4e16", "\u2028", "\u2029", "\ufffd", "\U0001F600", "\U0001D11E", "\u0080", "\u07ff", "\u0800", "\uffff", "\U00010000", "\U0010FFFF"}
 var badPieces = []string{"\x80", "\xbf", "\xc0\xaf", "\xc3", "\xe2\x82", "\xe2\x80", "\xed\xa0\x80", "\xed\xbf\xbf", "\xf4\x90\x80\x80", "\xf0\x9f", "\xff", "\xfe", "\xc1\xbf", "\xe0\x80\x80", "\xf8\x88\x80\x80\x80"}
 
+func init() {
+	// code points next to the encoding boundaries (built from numbers, never typed as literals)
+	for _, r := range []rune{0xD7C0, 0xD7FB, 0xD7FF, 0xE000, 0xFFFE, 0x9F, 0xA0, 0x100, 0x7FE, 0xFFF, 0x1000, 0xCFFF, 0xD000, 0xFDD0, 0x1FFFF, 0x20000, 0x3FFFF, 0x40000, 0xFFFFF, 0x100000} {
+		strPieces = append(strPieces, string(r))
+	}
+}
+
 // StringValueC draws a string under the configuration.
 func StringValueC(s Src, c ValCfg) string {
 	str := StringValue(s, c.ValidUTF8 || c.ASCII)
